@@ -300,8 +300,21 @@ func drvHNSW(args []string) error {
 		}
 	}
 	comet.VerifLevelFunc = nil
+	auditM := 2
+	lrng := rand.New(rand.NewSource(*cf.seed + 999))
+	if *audit > 0 { // levels from a seeded generator with the index's geometric law: reproducible audit graphs
+		comet.VerifLevelFunc = func() (int, bool) {
+			l := 0
+			for lrng.Float64() < 1/float64(auditM) && l < 10 {
+				l++
+			}
+			return l, true
+		}
+		defer func() { comet.VerifLevelFunc = nil }()
+	}
 	for a := 0; a < *audit; a++ {
 		mm := []int{2, 3, 4, 8, 16, 32}[rng.Intn(6)]
+		auditM = mm
 		env := &vecEnv{metric: []comet.DistanceKind{comet.Euclidean, comet.L2Squared, comet.Cosine}[rng.Intn(3)], dim: 1 + rng.Intn(32), rng: rng}
 		n := *size
 		if a%3 == 0 {
